@@ -681,6 +681,14 @@ def check(model, rep, tier):
     decoder_clause(model, rep, funcs)
     rank_clause(model, rep, funcs)
     misc_clause(model, rep, funcs)
+    # the multi-template write-back reports the winning shift in the frame it was measured in (pose frames, rule shared with C01)
+    from . import C01_frames
+    from .common import ClauseView
+    try:
+        fpm = model.func("acryo/loader/_base.py::LoaderBase._post_align_multi_templates")
+        C01_frames.frames_clause(model, ClauseView(rep, "3 decoders"), {"acryo/loader/_base.py::LoaderBase._post_align_multi_templates": fpm})
+    except KeyError as e:
+        rep.error(f"anchor vanished: {e}")
     # every rotated candidate is the template rotated about its own centre, for one template and for a stack (rule shared with C01)
     from .common import rotation_centre_obligations
     f_bank = funcs.get(AB + "RotationImplemented._get_template_and_mask_input")
